@@ -155,7 +155,7 @@ func runScenario(t *testing.T, sc *Scenario, drv Driver, bw *bufio.Writer) {
 						var ms runtime.MemStats
 						runtime.ReadMemStats(&ms)
 						if int64(ms.HeapAlloc)-heap0 > 256<<20 { // cheap look first, then a collection to be sure
-							if grown := (liveHeap() - heap0) >> 20; grown > 48 {
+							if grown := (liveHeap() - heap0) >> 20; grown > 200 {
 								heapFlagged = true
 								if pf := os.Getenv("SIM_HEAPPROF"); pf != "" {
 									if f, err := os.Create(pf); err == nil {
@@ -170,7 +170,7 @@ func runScenario(t *testing.T, sc *Scenario, drv Driver, bw *bufio.Writer) {
 					}
 				}
 				if heap0 >= 0 && !heapFlagged {
-					if grown := (liveHeap() - heap0) >> 20; grown > 48 {
+					if grown := (liveHeap() - heap0) >> 20; grown > 200 {
 						w.logf("harnessfail code=902 a=%d b=0", grown)
 						flush(n)
 					}
